@@ -13,7 +13,7 @@ from dslref import parse, Interp
 
 def main(seed, ncases, driver, out):
     rnd = random.Random(seed); failures = []; dist = {}; samples = []; evals = 0; distinct = 0
-    names = ["prog_basic", "prog_nested", "prog_flags", "prog_lower", "prog_herm3"]
+    names = ["prog_basic", "prog_nested", "prog_flags", "prog_lower", "prog_herm3", "prog_primes"]
     for c in range(ncases):
         if skip(c): continue
         rnd = case_rnd(seed, c)
